@@ -265,7 +265,34 @@ def _dynamics(case, ctx):
         def bath_parameters():
             h = a_if.get_KTHierarchy(2)
             return numpy.array(h.gamma, dtype=float), numpy.array(h.lam, dtype=float)
-        ok, gl = guarded(ctx, "hierarchy/bath-parameters", bath_parameters)
+
+        def bath_parameters_manual():
+            # the same from a hand-made system-bath interaction that was put together inside a units context
+            from quantarhei.qm.liouvillespace.heom import KTHierarchy
+            from quantarhei.qm import Operator, SystemBathInteraction
+            from quantarhei.qm.corfunctions import CorrelationFunctionMatrix
+            t0_, nt_, dt_ = spec["time"]
+            time = qr.TimeAxis(t0_, int(nt_), dt_)
+            with qr.energy_units("1/cm"):
+                cfs = [qr.CorrelationFunction(time, gens.bath_params(b, spec["T"])) for b in spec["bath"]]
+                cm = CorrelationFunctionMatrix(time, n)
+                for i in range(n):
+                    cm.set_correlation_function(cfs[i], [(i, i)])
+                ops = []
+                for i in range(n):
+                    K = numpy.zeros((n + 1, n + 1)); K[i + 1, i + 1] = 1.0
+                    ops.append(Operator(data=K))
+                sbi2 = SystemBathInteraction(ops, cm)
+            h = KTHierarchy(a_if.get_Hamiltonian(), sbi2, 2)
+            return numpy.array(h.gamma, dtype=float), numpy.array(h.lam, dtype=float)
+        for fn, wh in ((bath_parameters_manual, "manual-sbi-in-units/"), (bath_parameters, "")):
+            ok, gl = guarded(ctx, "hierarchy/bath-parameters", fn, wh)
+            if ok:
+                ctx.close("hierarchy/bath-parameters", gl[0], [1.0 / float(b["cortime"]) for b in spec["bath"]], rtol=1e-12,
+                          where=wh + "decay-rates")
+                ctx.close("hierarchy/bath-parameters", gl[1], [b["reorg"] * orc.CM2INT for b in spec["bath"]], rtol=1e-9,
+                          atol=1e-300, where=wh + "reorganisation-energies")
+        ok = False
         if ok:
             ctx.close("hierarchy/bath-parameters", gl[0], [1.0 / float(b["cortime"]) for b in spec["bath"]], rtol=1e-12,
                       where="decay-rates")
